@@ -26,11 +26,14 @@ TIERS = {
               dict(roots="response", K=2, KV=0, KU=3, shards=8),
               dict(roots="unionholder", K=2, KV=0, KU=3, shards=10),
               dict(roots="arrayunion", K=3, KV=0, KU=0, shards=6),
+              # every value within one change of the MAXIMAL instance (all properties set, budget 2)
+              dict(roots="all", K=1, KV=1, KU=1, shards=10, frommax=True),
               dict(roots="alias", K=3, KV=0, KU=4, shards=2)],
     "thorough": [dict(roots="all", K=2, KV=2, KU=3, shards=32),
                  dict(roots="response", K=3, KV=0, KU=3, shards=24),
                  dict(roots="alias", K=4, KV=0, KU=4, shards=4),
                  dict(roots="unionholder", K=3, KV=0, KU=0, shards=16),
+                 dict(roots="all", K=2, KV=1, KU=2, shards=32, frommax=True),
                  # the same universe through differently configured converters (C19's configurations, judged clause by clause)
                  dict(roots="all", K=1, KV=1, KU=2, shards=16, cfg="nodetail"),
                  dict(roots="all", K=1, KV=1, KU=2, shards=16, cfg="second"),
@@ -38,10 +41,10 @@ TIERS = {
 }
 
 
-def gen_cfg(K, KV, nshards, shard, roots="all", emit=True, KU=0, names=()):
-    return ("CONSTANTS K = %d NShards = %d Shard = %d Emit = %s RootSel = \"%s\" KV = %d KU = %d RootNames = {%s}\n"
+def gen_cfg(K, KV, nshards, shard, roots="all", emit=True, KU=0, names=(), frommax=False):
+    return ("CONSTANTS K = %d NShards = %d Shard = %d Emit = %s RootSel = \"%s\" KV = %d KU = %d RootNames = {%s} FromMax = %s\n"
             "INIT Init\nNEXT Next\nVIEW View\n%s\nCHECK_DEADLOCK FALSE\n"
-            % (K, nshards, shard, "TRUE" if emit else "FALSE", roots, KV, KU, ", ".join('"%s"' % n for n in names),
+            % (K, nshards, shard, "TRUE" if emit else "FALSE", roots, KV, KU, ", ".join('"%s"' % n for n in names), "TRUE" if frommax else "FALSE",
                "\n".join("INVARIANT " + i for i in GEN_INVARIANTS)))
 
 
@@ -63,6 +66,7 @@ def one_shard(args):
     names = args[9] if len(args) > 9 else ()
     sim = args[10] if len(args) > 10 else None
     conv_cfg = args[11] if len(args) > 11 else "default"
+    frommax = args[12] if len(args) > 12 else False
     t0 = time.time()
     states = os.path.join(work, "states-%d.txt" % shard)
     trace = os.path.join(work, "trace-%d.json" % shard)
@@ -72,7 +76,7 @@ def one_shard(args):
         # random walks of the value graph (TLC -simulate): long refinement chains beyond the BFS depth;
         # TLC evaluates the invariants (and so prints) every successor of every visited state
         extra = ("-simulate", "num=%d" % sim["num"], "-depth", str(sim["depth"]), "-seed", str(common.seed() * 1000 + shard + 1))
-    rc, _ = common.run_tlc("Codec", gen_cfg(K, KV, nshards, shard, roots, KU=KU, names=names), env=env, out_path=states, heap="2g", extra=extra)
+    rc, _ = common.run_tlc("Codec", gen_cfg(K, KV, nshards, shard, roots, KU=KU, names=names, frommax=frommax), env=env, out_path=states, heap="2g", extra=extra)
     head = open(states, encoding="utf-8", errors="replace").read()
     gen_text = "\n".join(l for l in head.splitlines() if not l.startswith('"@S'))
     if sim:
@@ -149,7 +153,7 @@ def run(tier, model=None, pkg_path=None, use_cache=True, passes=None):
         for pi, ps in enumerate(passes):
             d = os.path.join(work, "p%d" % pi)
             os.makedirs(d)
-            jobs += [(ps["K"], ps["KV"], ps["shards"], s, ps["roots"], model, pkg_path, d, ps.get("KU", 0), tuple(ps.get("names", ())), ps.get("simulate"), ps.get("cfg", "default")) for s in range(ps["shards"])]
+            jobs += [(ps["K"], ps["KV"], ps["shards"], s, ps["roots"], model, pkg_path, d, ps.get("KU", 0), tuple(ps.get("names", ())), ps.get("simulate"), ps.get("cfg", "default"), ps.get("frommax", False)) for s in range(ps["shards"])]
         with cf.ThreadPoolExecutor(max_workers=common.NCPU) as ex:
             parts = list(ex.map(one_shard, jobs))
     finally:
